@@ -24,16 +24,16 @@ def stateful(pid, what, ref):
     }
 
 CHECKS = {
- "C01": stateful("C01", "TLC checks CodeOnce/ReplayRefused/ReplayKillsFamily/FamilyIsolation in every state of the bounded design (plain + hybrid codes, refresh chains, revocations, clock); every TLC behaviour of a shallow depth and seeded deep ones are executed on the real provider + reference store and each step (result class, issued credentials, introspection of every token, store projection) is validated against the spec.", "DESIGN.md 6 C01"),
+ "C01": stateful("C01", "TLC checks CodeOnce/ReplayRefused/ReplayKillsFamily/FamilyIsolation in every state of the bounded design (plain + hybrid codes, refresh chains, revocations, clock; family C01 broad and shallow, family C01b one code followed through time with short lifetimes), plus FCInv/FCRefines (refinement of FamilyCore.tla, whose invariant Apalache shows inductive). One witness history per distinct state of the bounded model, extended by every refused/query operation of that state (a seeded sample at quick), and seeded deep simulated histories are executed on the real provider + reference store and each step (result class, issued credentials, introspection of every token, store projection) is validated against the spec.", "DESIGN.md 6 C01"),
  "C02": stateful("C02", "Exhaustive TLC check of RedeemGuard/FailedRedeemInert/grant immutability over client x redirect presentation x smuggled parameters x code age; all attempt pairs and seeded longer histories replayed on the real code and validated step by step, incl. the introspection payload of issued tokens.", "DESIGN.md 6 C02"),
  "C03": stateful("C03", "Exhaustive TLC check of PkceGuard/PkceBindingStable over all sequences of redemption attempts for the 8 PKCE configurations; every attempt sequence up to the generation depth is executed on the real code with real verifiers/S256 challenges and validated.", "DESIGN.md 6 C03"),
- "C04": stateful("C04", "TLC checks RefreshOnce/ReuseKillsFamily/FamilyIsolation on grants of four origins (code, hybrid, password, device) with chains and replays of any generation; behaviours replayed on the real code, every token of every generation probed after every step.", "DESIGN.md 6 C04"),
+ "C04": stateful("C04", "TLC checks RefreshOnce/ReuseKillsFamily/FamilyIsolation on grants of four origins (code, hybrid, password, device) with chains and replays of any generation by the owner or a stranger (family C04), and one refresh chain followed through time with short lifetimes (family C04b); FCInv/FCRefines link the design to FamilyCore.tla, whose invariant (one honoured refresh token per grant, killed grants stay dead) Apalache shows inductive for histories of any length (run at thorough). Behaviours replayed on the real code, every token of every generation probed after every step.", "DESIGN.md 6 C04"),
  "C05": stateful("C05", "TLC checks RefreshGuard/RefreshPreservesGrant/RtIssuanceRule over grant x refresh parameters x presenting client x registration changes x refresh-scope configuration; behaviours replayed and validated incl. payload comparison.", "DESIGN.md 6 C05"),
  "C07": stateful("C07", "TLC checks NothingAfterExpiry/StepExpiryRespected for codes, opaque and JWT access tokens, refresh tokens (finite and unlimited), device/user codes and PAR request URIs with an explicit clock; histories with ticks on both sides of every expiry executed under the synctest clock and validated, advertised expires_in compared.", "DESIGN.md 6 C07"),
- "C08": stateful("C08", "TLC checks RevokeEffective/RevokeOwnerOnly/unknown-inert over every token ever issued x hint x caller; behaviours replayed on the real code and all tokens probed afterwards.", "DESIGN.md 6 C08"),
- "C09": stateful("C09", "The introspection probe of every token after every step of every history of every stateful check is compared with the spec's verdict and payload; the C09 alphabet adds the introspection endpoint with every caller credential, hint and required-scope list.", "DESIGN.md 6 C09"),
+ "C08": stateful("C08", "TLC checks RevokeEffective/RevokeOwnerOnly/unknown-inert over every token ever issued x hint x caller (owner, foreign confidential, foreign public, bad secret, unauthenticated; family C08) and over tokens of every age incl. expired ones (family C08b); behaviours replayed on the real code and all tokens probed afterwards.", "DESIGN.md 6 C08"),
+ "C09": stateful("C09", "The introspection probe of every token after every step of every history of every stateful check is compared with the spec's verdict and payload; the C09 alphabet adds the introspection endpoint with every caller credential (client secret, bad secret, public client, active / expired / revoked access token as bearer, the inspected token itself, a refresh token as bearer), hint and required-scope list (single and several scopes); for an active answer the reported kind (from the responder), client, subject and scope are compared, for an inactive one that the body is nothing but active=false.", "DESIGN.md 6 C09"),
  "C16": stateful("C16", "TLC checks DeviceGuard/DeviceOnce/DeviceReplayRevokes over start/decide/poll/replay/tick for the reference store and a store following the ErrInvalidatedDeviceCode contract; behaviours replayed and validated.", "DESIGN.md 6 C16"),
- "C17": stateful("C17", "TLC checks ParOnce/ParClientBound/ParExpires/ParEnforced; behaviours (push, use by right/wrong client, twice, after expiry, with conflicting query parameters, unknown/foreign-prefix URIs) replayed; the parameters of the resulting request are compared with the pushed ones.", "DESIGN.md 6 C17"),
+ "C17": stateful("C17", "TLC checks ParOnce/ParClientBound/ParExpires/ParEnforced; behaviours (push, use by right/wrong client, twice, after expiry, with conflicting query parameters, unknown/foreign-prefix URIs; family C17b follows one request_uri through time) replayed; the parameters of the resulting request are compared with the pushed ones.", "DESIGN.md 6 C17"),
 }
 
 STEPS_NOTE = ("Trusted: TLC 1.8 + CommunityModules Json; Go 1.26 testing/synctest; the storage gate of the harness (parks every request "
@@ -55,10 +55,10 @@ def steps(pid, cat, what, ref, technique):
     }
 
 CHECKS["C18"] = steps("C18", "fault_enumeration",
-    "Steps.tla refines every token-issuing/revoking request into its storage calls; TLC enumerates every call index x error kind (single faults; pairs at thorough) for the code, PKCE, hybrid, replay, refresh, refresh-reuse, revocation, authorize and device flows, with a transactional store with real rollback and with the plain reference store, followed by a retry and a replay, and checks NoTokensOnFailure / TxBalanced / RollbackRestores / FailClosed / RetryStillGuarded in every state. Every one of these fault schedules is forced on the real code through the storage gate and validated step by step (method called, store projection, tx log, result); predicates that need only the observation are evaluated on it as well.",
+    "Steps.tla refines every token-issuing/revoking request into its storage calls; TLC enumerates every call index x error kind (single faults; pairs at thorough) for the code, PKCE, hybrid, replay, refresh, refresh-reuse, revocation (refresh and access token), authorize, implicit, device, client-credentials, password, JWT-bearer, private_key_jwt, PAR push and PAR use flows, with a transactional store with real rollback and with the plain reference store, followed by a retry and a replay, and checks NoTokensOnFailure / TxBalanced / RollbackRestores / FailClosed / RetryStillGuarded in every state. Every one of these fault schedules is forced on the real code through the storage gate and validated step by step (method called, store projection, tx log, result); predicates that need only the observation are evaluated on it as well, also on histories in which the implementation's call sequence has left the specification's.",
     "DESIGN.md 6 C18", "TLA+ step-level spec (Steps/MCSteps) model-checked with TLC; TLC-enumerated fault schedules injected into the real code at the storage interface; recorded traces validated with TLC (TraceSteps)")
 CHECKS["C19"] = steps("C19", "model_checking",
-    "TLC explores every interleaving, at storage-call granularity, of two and three in-flight requests on overlapping credentials (MCSteps ScnConc2/ScnConc3) and checks HandedOutActiveOrKilledByPeer / MintFresh / refinement of the sequential design; the schedules (all of them at thorough, a seeded sample at quick) are forced on real goroutines through the storage gate and every step is validated: the handler called the storage method the spec names, the call had exactly the specified atomic effect on the store, results and final activity agree. Outside the specification (a TLA+ model cannot see a missing lock) the same harness runs free under the Go race detector with default-constructed and fully populated configurations, a watchdog and recover.",
+    "TLC explores every interleaving, at storage-call granularity, of two and three in-flight requests on overlapping credentials (MCSteps ScnConc2/ScnConc3; ScnConc3Big = three complete token requests at once, design checked exhaustively, schedules sampled) and checks HandedOutActiveOrKilledByPeer / MintFresh / refinement of the sequential design; the schedules (all of them at thorough, a seeded sample at quick) are forced on real goroutines through the storage gate and every step is validated: the handler called the storage method the spec names, the call had exactly the specified atomic effect on the store, results and final activity agree. Outside the specification (a TLA+ model cannot see a missing lock) the same harness runs free under the Go race detector with default-constructed and fully populated configurations, a watchdog and recover.",
     "DESIGN.md 6 C19", "TLA+ step-level spec model-checked with TLC; TLC-generated schedules forced on real goroutines; traces validated with TLC (TraceSteps); Go race detector for the memory-level clause")
 
 TABLE_NOTE = ("Trusted: TLC 1.8 (evaluates the decision specification and its ASSUMEd relations on the complete bounded domain and "
@@ -82,8 +82,8 @@ def table(pid, what, ref):
 CHECKS["C11"] = table("C11", "TblRedirect.tla states when a redirect to a requested URI is allowed (string-identical to a registered URI, or http + loopback literal + same host/path/query; absolute; no own fragment) over URI records; TLC enumerates every registered set x every one- (thorough: two-) component near-miss of a registered URI x response type x response mode x kind of request error; every row is rendered to strings and driven through NewAuthorizeRequest / NewAuthorizeResponse / WriteAuthorizeResponse / WriteAuthorizeError, and the Location header or form action is compared (redirected => allowed, target = requested, no code over plain http to a non-local host).", "DESIGN.md 6 C11")
 CHECKS["C12"] = table("C12", "TblScope.tla transcribes the documented rules of the three scope strategies and two audience strategies; TLC enumerates all pattern/needle pairs over the segment alphabet {a,b,*,empty} up to 3 (thorough 4) segments, all URL pairs of the bounded URL domain, and the confinement table flow x strategy x registration x request for all nine flows; the real strategy functions are called on every row and every flow is driven with every out-of-policy request (accept/refuse, error class, scopes/audience of issued tokens).", "DESIGN.md 6 C12")
 
-CHECKS["C06"] = table("C06", "TblHmac.tla models a credential as <<prefix, key, mac>> with an uninterpreted injective MAC and states which presentations are accepted under which secret/hash configuration (current, rotated at any position, forgotten, shorter than 32 bytes before/after the matching one, equal in the first 32 bytes, other hash function); TLC enumerates credential kind (code, access, refresh, device code) x 17 mutation classes x 10 configurations, and 13 JWT manipulation classes. Every row is concretised n times (seeded bit/byte positions, real tokens minted by the real strategies through the real flows) and presented to Validate and to the consuming endpoint; a refusal must leave the store projection unchanged; all minted values of the run are checked for repeats and decoded key length.", "DESIGN.md 6 C06")
-CHECKS["C10"] = table("C10", "TblClientAuth.tla transcribes client authentication (registration kind/method/public/rotated secrets x transport x secret relation x known id x endpoint -> authentication verdict and endpoint outcome); TLC enumerates all 5040 rows; each is executed with real bcrypt-hashed secrets at the token (client_credentials, password, refresh_token), revocation, PAR and device-authorization endpoints; on a rejected authentication the storage write log must be empty and the presented refresh token still active.", "DESIGN.md 6 C10")
+CHECKS["C06"] = table("C06", "TblHmac.tla models a credential as <<prefix, key, mac>> with an uninterpreted injective MAC and states which presentations are accepted under which secret/hash configuration (current, rotated at any position, forgotten, shorter than 32 bytes before/after the matching one, equal in the first 32 bytes, other hash function); TLC enumerates credential kind (code, access, refresh, device code) x 17 mutation classes x 13 configurations (incl. rotated secrets only) x finite/unlimited refresh lifetime, and 13 JWT manipulation classes. Every row is concretised n times (seeded bit/byte positions, real tokens minted by the real strategies through the real flows) and presented to Validate and to the consuming endpoint; a refusal must leave the store projection unchanged; all minted values of the run are checked for repeats and decoded key length.", "DESIGN.md 6 C06")
+CHECKS["C10"] = table("C10", "TblClientAuth.tla transcribes client authentication (registration kind/method/public/rotated secrets x transport x secret relation x known id x endpoint -> authentication verdict and endpoint outcome); TLC enumerates all 6192 rows (incl. confidential registrations without any stored secret hash); each is executed with real bcrypt-hashed secrets at the token (client_credentials, password, refresh_token), revocation, PAR and device-authorization endpoints; on a rejected authentication the storage write log must be empty and the presented refresh token still active.", "DESIGN.md 6 C10")
 CHECKS["C13"] = table("C13", "TblAuthz.tla transcribes the authorization-request validation pipeline and response placement (registered response-type sets, response modes, grant types x response_type list with order and duplicates x response_mode x state/nonce length x openid x redirect_uri); the safety clauses of the statement are ASSUMEd of the specification on the whole domain (70200 rows); rows (all at thorough, a seeded 16000 at quick) are driven through NewAuthorizeRequest/NewAuthorizeResponse/Write*, and verdict, issued artefacts, placement (query/fragment/form), 'no token in the query' and state echo are compared.", "DESIGN.md 6 C13")
 
 CHECKS["C14"] = table("C14", "TblIDToken.tla states, per OpenID flow (code, implicit x2, hybrid x2, refresh, device), when an ID Token is issued (openid granted, non-empty subject, pre-set expiry not in the past) and what it is bound to (algorithm of the signing key, at_hash / c_hash presence and hash size, nonce, aud, sub, iss, exp window), and the max_age / prompt / id_token_hint conditions as a function of auth_time - requested_at; every row is executed end to end with real RSA / P-256 / P-384 / P-521 keys and the token is parsed and verified with the public key; hashes are recomputed with the standard library.", "DESIGN.md 6 C14")
